@@ -30,6 +30,7 @@ structure Body where
   buffered : Nat := 0
   ended : Bool := false
   returned : Bool := false
+  closed : Bool := false                -- the handler called Body.Close() (pipe.BreakWithError): reads fail, writes are refused
   deriving Repr, DecidableEq
 
 structure RConn where
@@ -55,6 +56,7 @@ inductive RxEv
   | rst (sid : Nat)
   | hread (sid n : Nat)
   | hret (sid : Nat)
+  | hclose (sid : Nat)                  -- the handler closes the request body and goes on (it has not returned)
   deriving Repr, DecidableEq
 
 def findS (c : RConn) (sid : Nat) : Option RStream := c.streams.find? (·.id == sid)
@@ -124,6 +126,18 @@ def acceptData (c : RConn) (s : RStream) (sid len L : Nat) : Option (RConn × Li
     some (padRefund (buffer c1 sid len) sid (L - len))
   else some (c, [])
 
+/-- has the handler of this stream closed its request body? -/
+def bodyClosed (c : RConn) (sid : Nat) : Bool :=
+  match findB c sid with | some b => b.closed | none => false
+
+/-- processData when `st.body.Write` fails because "the handler has closed the request body": both windows were
+charged, the WHOLE frame (data and padding: `f.Length - wrote`, wrote = 0) goes back to the connection window, nothing
+to the stream window, and the function returns before looking at END_STREAM; `none` = a window is exceeded -/
+def discardData (c : RConn) (s : RStream) (len L : Nat) : Option (RConn × List Rx) :=
+  if !(takeInflows c.inflow s.inflow L).2.2 then none else
+  some (connRefund (setS { c with inflow := (takeInflows c.inflow s.inflow L).1 }
+    { s with inflow := (takeInflows c.inflow s.inflow L).2.1, bodyBytes := s.bodyBytes + len }) L)
+
 def markHalfClosed (c : RConn) (sid : Nat) : RConn :=
   match findS c sid with | some s => setS c { s with state := .halfClosedRemote } | none => c
 
@@ -164,6 +178,10 @@ def step (c : RConn) (e : RxEv) : RConn × List Rx :=
     | some s =>
       if s.state ≠ .open_ then chargeReturn c sid L (fun c => streamErr c sid STREAM_CLOSED)
       else if overDeclared s len then chargeReturn c sid L (fun c => streamErr c sid PROTOCOL)
+      else if bodyClosed c sid && decide (len > 0) then
+        match discardData c s len L with
+        | none => streamErr c sid FLOW_CONTROL
+        | some r => r
       else
         match acceptData c s sid len L with
         | none => streamErr c sid FLOW_CONTROL
@@ -177,6 +195,7 @@ def step (c : RConn) (e : RxEv) : RConn × List Rx :=
     | none => (c, [.wouldBlock])
     | some b =>
       if b.returned then (c, [.wouldBlock]) else
+      if b.closed then (c, [.readErr]) else
       if b.buffered = 0 then (if b.ended then (c, [.readErr]) else (c, [.wouldBlock])) else
       noteRead c b sid (min n b.buffered)
   | .hret sid =>
@@ -192,6 +211,11 @@ def step (c : RConn) (e : RxEv) : RConn × List Rx :=
           -- the response ends the stream before the request did: RST_STREAM(NO_ERROR), then closeStream
           ((closeStream c sid).1, [Rx.rst sid 0] ++ (closeStream c sid).2)
         else closeStream c sid
+
+  | .hclose sid =>
+    match findB c sid with
+    | none => (c, [])
+    | some b => if b.returned then (c, []) else (setB c { b with closed := true }, [])
 
 def run (c : RConn) : List RxEv → List (List Rx)
   | [] => []
